@@ -13,7 +13,7 @@ wt=$(mktemp -d /tmp/sc-XXXXXX); rmdir "$wt"
 git -C /repo worktree add -q --detach "$wt" HEAD || exit 2
 trap 'git -C /repo worktree remove --force "$wt" 2>/dev/null; git -C /repo worktree prune' EXIT
 demo=$(ls "$src" | grep -E '\.go$' | head -5)
-sed -e "s#$base/$id/wt#$wt#g" "$src/demo_cmd.txt" > /tmp/sc-cmd.$$
+sed -e "s#$base/$id/wt#$wt#g" "$src/demo_cmd.txt" | grep -vE "^[[:space:]]*(git (apply|checkout|stash|diff|status)|rm |# )" > /tmp/sc-cmd.$$
 place_demo() {
   for f in $demo; do
     pk=$(grep -m1 '^package ' "$src/$f" | awk '{print $2}')
@@ -26,7 +26,7 @@ place_demo() {
     cp "$src/$f" "$wt/$dst/$f"
   done
 }
-run_demo() { place_demo; (cd "$wt" && bash /tmp/sc-cmd.$$ >/tmp/sc-demo.$$ 2>&1); rc=$?; grep -aq "no tests to run" /tmp/sc-demo.$$ && { echo "demo: no tests ran"; rc=99; }; return $rc; }
+run_demo() { place_demo; (cd "$wt" && bash -e /tmp/sc-cmd.$$ >/tmp/sc-demo.$$ 2>&1); rc=$?; grep -aq "no tests to run" /tmp/sc-demo.$$ && { echo "demo: no tests ran"; rc=99; }; return $rc; }
 # demo without the change
 run_demo; r0=$?
 git -C "$wt" status --short | awk '{print $2}' | while read f; do rm -f "$wt/$f"; done; git -C "$wt" checkout -q -- .
